@@ -209,7 +209,9 @@ static rc::Gen<Case> gen_case() {
                 "/sub/link_alt/d.txt", "/link_a", "/dangling", "/al/d.txt", "/al/in/e.txt", "/al", "/al/", "/al2/f.txt", "/al/link_out2/secret.txt", "/al/.althidden", "/al/../a.txt", "/al../a.txt",
                 "/../outside/secret.txt", "/../rootX/sibling.txt", "/sub/../../outside/secret.txt", "/alt/d.txt", "/sub/deep/../b.html", "/sub/deep/../../a.txt", "/sub/.secret", "/link_in/../a.txt", "/link_out/../a.txt",
                 "/idx_out", "/idx_out/", "/idx_out/index.html", "/idx_in/", "/idx_in", "/al/idx_out2/", "/al/idx_out2", "/idx_dirlink/", "/idx_out/./", "/sub/../idx_out/",
-                "/link_sib/sibling.txt", "/link_sib", "/link_sib/", "/link_sib_file", "/idx_sib/", "/idx_sib", "/idx_sib/index.html", "/al/link_alt2/f.txt", "/al/link_alt2/", "/al/link_alt2"};
+                "/link_sib/sibling.txt", "/link_sib", "/link_sib/", "/link_sib_file", "/idx_sib/", "/idx_sib", "/idx_sib/index.html", "/al/link_alt2/f.txt", "/al/link_alt2/", "/al/link_alt2",
+                // a path under one alias whose remainder looks like the URL of another alias (only the first matching alias applies)
+                "/al/al2/f.txt", "/al/al2", "/al/al2/", "/al2/al/d.txt", "/al2/al/in/e.txt", "/al/al/d.txt", "/al2/al2/f.txt", "/al/al2/../d.txt"};
             static const int NTARGETS = (int)(sizeof targets / sizeof *targets);
             std::string t = targets[*vr::range<int>(0, NTARGETS)];
             std::vector<std::string> segs; size_t i = 1; while (i <= t.size()) { size_t e = t.find('/', i); if (e == std::string::npos) e = t.size(); segs.push_back(t.substr(i, e - i)); if (e == t.size()) break; i = e + 1; }
